@@ -122,6 +122,7 @@ func (p *Packet) decodeHead(data []byte) error {
 		return ErrHeaderLength2Short
 	}
 	start := 16
+	p.Timestamp, p.LastIFrameInterval, p.LastFrameInterval = 0, 0, 0 // 没有这些字段的帧类型不能留着上一个包的值
 	if p.DataType != DataTypePenetrate {
 		p.Timestamp = binary.BigEndian.Uint64(data[16:24])
 		start = 24
